@@ -793,8 +793,8 @@ func main() {
 		cases = append(cases, batchCorpus()...)
 	}
 	genBase := len(cases)
-	n := f.Count(24, 600)
-	nbig := f.Count(1, 8)
+	n := f.Count(24, 300)
+	nbig := f.Count(1, 6)
 	nhuge := f.Count(0, 2)
 	if v, err := strconv.Atoi(os.Getenv("VERIF_C50_HUGE")); err == nil { // development aid
 		nhuge = v
